@@ -121,3 +121,76 @@ theorem Par.no_worker_evaluates (P : Par) (ex : Exec) (h : ex.Accepts P.src.item
   exact ⟨t, ht, hm⟩
 
 end OrxPar
+
+namespace OrxPar
+
+/-! ### the panic prediction (`panicPred`) is sound -/
+
+/-- full-visit terminals: under every accepted execution the terminal phase performs exactly the
+    invocations of `possibleLog` (= `certainLog`), as a multiset -/
+theorem Par.termLog_perm_full (P : Par) (ex : Exec) (t : Terminal) (hsc : t.isShortCircuit = false)
+    (h : (P.forTerminal t).1.params.isSequential = true ∨ ex.Accepts (P.forTerminal t).1.src.items) :
+    (P.termLog ex t).Perm (P.possibleLog t) := by
+  have hp : t.pred? = none := by cases t <;> simp [Terminal.isShortCircuit] at hsc <;> rfl
+  simp only [Par.termLog, Par.possibleLog, hp, hsc]
+  apply List.Perm.append_left
+  unfold Par.fullLog
+  cases hs : (P.forTerminal t).1.params.isSequential with
+  | true => simp
+  | false =>
+    simp only [Bool.false_eq_true, if_false]
+    rcases h with h | h
+    · rw [hs] at h; cases h
+    · exact Par.parLog_perm _ ex h
+
+theorem Par.certain_eq_possible_full (P : Par) (t : Terminal) (hsc : t.isShortCircuit = false) :
+    P.certainLog t = P.possibleLog t := by
+  have hp : t.pred? = none := by cases t <;> simp [Terminal.isShortCircuit] at hsc <;> rfl
+  simp only [Par.certainLog, Par.possibleLog, hp, hsc]
+
+/-- workers scanning the chunks of a tiled prefix evaluate only invocations of the complete
+    evaluation of the source -/
+theorem scan_mem (g : Val → Prod) (ex : Exec) (xs : List Val) (n : Nat)
+    (ht : Tiles ex.asg 0 (xs.take n)) (hn : ex.order.Nodup) (htid : ∀ c ∈ ex.asg, c.tid ∈ ex.order)
+    (e : Event) (he : e ∈ ex.order.flatMap fun t => scanLog g (K.elems (ex.chunksOf t))) :
+    e ∈ xs.flatMap fun x => (g x).log := by
+  rw [List.mem_flatMap] at he
+  obtain ⟨t, ht', hm⟩ := he
+  have hpre := scanLog_prefix g (K.elems (ex.chunksOf t))
+  rw [Prod.log_bindList] at hpre
+  have h1 : e ∈ ex.order.flatMap fun t => (K.elems (ex.chunksOf t)).flatMap fun x => (g x).log :=
+    List.mem_flatMap.mpr ⟨t, ht', hpre.subset hm⟩
+  have h2 := (regroup_perm (fun x => (g x).log) ex _ 0 ht hn htid).mem_iff.mp h1
+  rw [List.mem_flatMap] at h2 ⊢
+  obtain ⟨x, hx, hxe⟩ := h2
+  exact ⟨x, List.mem_of_mem_take hx, hxe⟩
+
+/-- short-circuit terminals: whatever prefix of the source was pulled and however it was
+    distributed, only invocations of `possibleLog` are performed -/
+theorem Par.termLog_sub_possible_short (P : Par) (ex : Exec) (t : Terminal)
+    (hsc : t.isShortCircuit = true) (n : Nat)
+    (h : P.params.isSequential = true ∨
+      (Tiles ex.asg 0 (P.src.items.take n) ∧ ex.order.Nodup ∧ ∀ c ∈ ex.asg, c.tid ∈ ex.order))
+    (e : Event) (he : e ∈ P.termLog ex t) : e ∈ P.possibleLog t := by
+  cases hs : P.params.isSequential with
+  | true =>
+    cases hp : t.pred? with
+    | none => simpa [Par.termLog, Par.possibleLog, hp, hsc, hs] using he
+    | some q => simpa [Par.termLog, Par.possibleLog, hp, hs] using he
+  | false =>
+    rcases h with h | ⟨ht, hn, htid⟩
+    · rw [hs] at h; cases h
+    · cases hp : t.pred? with
+      | none =>
+        simp only [Par.termLog, Par.possibleLog, hp, hsc, hs, Bool.false_eq_true, if_false] at he ⊢
+        have := scan_mem P.elem ex P.src.items n ht hn htid e he
+        unfold Par.stream
+        rwa [Prod.log_bindList]
+      | some q =>
+        simp only [Par.termLog, Par.possibleLog, hp, hs, Bool.false_eq_true, if_false] at he ⊢
+        have := scan_mem (P.elemQ q) ex P.src.items n ht hn htid e he
+        unfold Par.stream
+        rw [Prod.filterW_bindList, Prod.log_bindList]
+        exact this
+
+end OrxPar
